@@ -70,10 +70,11 @@ Proof.
 Qed.
 
 Example margin_box_fixed_example :
-  compute_fixed_dimension 100 10 None (Some 50) None true = Ok (20, 50, 20) /\
-  compute_fixed_dimension 100 10 (Some 30) (Some 80) (Some 5) true = Ok (100 - 10 - 5 - 80, 80, 5) /\
-  compute_fixed_dimension 100 10 (Some 30) (Some 80) (Some 5) false = Ok (30, 80, 100 - 10 - 30 - 80).
-Proof. repeat split. Qed.
+  res3_eqb (compute_fixed_dimension 100 10 None (Some 50) None true) (Some (20, 50, 20)) = true /\
+  res3_eqb (compute_fixed_dimension 100 10 (Some 30) (Some 80) (Some 5) true) (Some (5, 80, 5)) = true /\
+  res3_eqb (compute_fixed_dimension 100 10 (Some 30) (Some 80) (Some 5) false) (Some (30, 80, -20)) = true /\
+  res3_eqb (compute_fixed_dimension 100 10 None None (Some 200) false) (Some (0, 0, 90)) = true.
+Proof. vm_compute. repeat split. Qed.
 
 (* ------------------------------------------------------------------------ compute_variable_dimension *)
 Lemma sugar_zero x : sugar (zero_margins x) = sugar x. Proof. reflexivity. Qed.
@@ -154,7 +155,7 @@ Qed.
 (* no ZeroDivisionError, whatever the inputs *)
 Lemma bind_not_div {A B} (r : result A) (f : A -> result B) :
   r <> ErrDiv -> (forall v, f v <> ErrDiv) -> bind r f <> ErrDiv.
-Proof. intros H1 H2. destruct r; simpl; try congruence. apply H2. Qed.
+Proof. intros H1 H2. destruct r; simpl; try congruence; try apply H2. Qed.
 Lemma share_not_div flex f fs : share flex f fs <> ErrDiv.
 Proof. destruct (share_ok flex f fs) as [v [E _]]. congruence. Qed.
 Lemma outer_not_div x : outer x <> ErrDiv.
@@ -195,10 +196,10 @@ Lemma two_auto_fit avail a c :
     (exists i, m_inner c' = Some i /\ m_min c <= i <= m_max c).
 Proof.
   unfold content_ok. intros Ca Cc Ia Ic Hfit.
-  assert (Ema : outer_max a = sugar a + m_max a) by (unfold outer_max; now rewrite Ia).
-  assert (Emc : outer_max c = sugar c + m_max c) by (unfold outer_max; now rewrite Ic).
-  assert (Emia : outer_min a = sugar a + m_min a) by (unfold outer_min; now rewrite Ia).
-  assert (Emic : outer_min c = sugar c + m_min c) by (unfold outer_min; now rewrite Ic).
+  assert (Ema : outer_max a == sugar a + m_max a) by (unfold outer_max; rewrite Ia; reflexivity).
+  assert (Emc : outer_max c == sugar c + m_max c) by (unfold outer_max; rewrite Ic; reflexivity).
+  assert (Emia : outer_min a == sugar a + m_min a) by (unfold outer_min; rewrite Ia; reflexivity).
+  assert (Emic : outer_min c == sugar c + m_min c) by (unfold outer_min; rewrite Ic; reflexivity).
   unfold cvd_two_auto.
   destruct (qgt avail (outer_max a + outer_max c)) eqn:B1.
   - apply qgt_true in B1.
@@ -245,8 +246,8 @@ Lemma middle_auto_fit avail a b c :
     sugar b' = sugar b /\ (exists i, m_inner b' = Some i /\ m_min b <= i <= m_max b).
 Proof.
   unfold content_ok. intros Ca Cb Cc Ib Hfit.
-  assert (Emb : outer_max b = sugar b + m_max b) by (unfold outer_max; now rewrite Ib).
-  assert (Emib : outer_min b = sugar b + m_min b) by (unfold outer_min; now rewrite Ib).
+  assert (Emb : outer_max b == sugar b + m_max b) by (unfold outer_max; rewrite Ib; reflexivity).
+  assert (Emib : outer_min b == sugar b + m_min b) by (unfold outer_min; rewrite Ib; reflexivity).
   assert (Ha : outer_min a <= outer_max a) by (unfold outer_min, outer_max; destruct (m_inner a); lra).
   assert (Hc : outer_min c <= outer_max c) by (unfold outer_min, outer_max; destruct (m_inner c); lra).
   assert (Hac : Qmax (outer_min a) (outer_min c) <= Qmax (outer_max a) (outer_max c)).
@@ -314,27 +315,27 @@ Proof.
       - destruct (middle_auto_fit avail a0 b0 c0 Ca0 Cb0 Cc0 Ib Hfit) as [b' [E [F [_ [i [Ei _]]]]]].
         exists b'. split; [exact E|]. split; [exact F|]. now exists i. }
     destruct Hmid as [b' [Eb [F [ib Eib]]]]. rewrite Eb. cbn [bind].
-    destruct (fixed_outer b' ib Eib) as [Eob _]. rewrite Eob.
+    destruct (fixed_outer b' ib Eib) as [Eob _]. rewrite Eob. cbn [bind].
     pose proof (Q.le_max_l (outer_min a0) (outer_min c0)) as MA.
     pose proof (Q.le_max_r (outer_min a0) (outer_min c0)) as MC.
-    assert (Ha : exists a', (if is_auto (m_inner a0) then (let! ob := Ok (outer_of b') in Ok (set_outer a0 ((avail - ob) / 2))) else Ok a0) = Ok a'
+    assert (Ha : exists a', (if is_auto (m_inner a0) then Ok (set_outer a0 ((avail - outer_of b') / 2)) else Ok a0) = Ok a'
                   /\ outer_of a' <= (1 # 2) * (avail - outer_of b') /\ is_auto (m_inner a') = false).
     { destruct (m_inner a0) as [ia|] eqn:Ia; cbn [is_auto bind].
       - exists a0. split; [reflexivity|]. destruct (fixed_outer a0 ia Ia) as [_ E]. rewrite E, Ia. split; [lra|reflexivity].
       - eexists. split; [reflexivity|]. split; [|reflexivity].
         apply outer_of_set_outer_le.
-        + unfold outer_min in MA. rewrite Ia in MA. lra.
+        + assert (Em : outer_min a0 == sugar a0 + m_min a0) by (unfold outer_min; rewrite Ia; reflexivity). lra.
         + apply Qle_shift_div_r; lra. }
-    assert (Hc : exists c', (if is_auto (m_inner c0) then (let! ob := Ok (outer_of b') in Ok (set_outer c0 ((avail - ob) / 2))) else Ok c0) = Ok c'
+    assert (Hc : exists c', (if is_auto (m_inner c0) then Ok (set_outer c0 ((avail - outer_of b') / 2)) else Ok c0) = Ok c'
                   /\ outer_of c' <= (1 # 2) * (avail - outer_of b') /\ is_auto (m_inner c') = false).
     { destruct (m_inner c0) as [ic|] eqn:Ic; cbn [is_auto bind].
       - exists c0. split; [reflexivity|]. destruct (fixed_outer c0 ic Ic) as [_ E]. rewrite E, Ic. split; [lra|reflexivity].
       - eexists. split; [reflexivity|]. split; [|reflexivity].
         apply outer_of_set_outer_le.
-        + unfold outer_min in MC. rewrite Ic in MC. lra.
+        + assert (Em : outer_min c0 == sugar c0 + m_min c0) by (unfold outer_min; rewrite Ic; reflexivity). lra.
         + apply Qle_shift_div_r; lra. }
     destruct Ha as [a' [Ea [La Aa]]]. destruct Hc as [c' [Ec [Lc Ac]]].
-    rewrite Ea. cbn [bind]. rewrite Ec. cbn [bind].
+    rewrite Ea. cbn [bind]. rewrite ?Eob. rewrite Ec. cbn [bind].
     rewrite Aa, Ac, Eib. cbn [is_auto orb].
     exists a', b', c'. split; [reflexivity|]. now split.
   - (* no centre box *)
@@ -346,14 +347,102 @@ Proof.
     + destruct (fixed_outer a0 ia Ia) as [E0 E1]. rewrite E0. cbn [bind set_outer m_inner]. rewrite Ia, Ez.
       cbn [is_auto orb]. do 3 eexists. split; [reflexivity|].
       assert (outer_of (set_outer c0 (avail - outer_of a0)) <= avail - outer_of a0).
-      { apply outer_of_set_outer_le; [|lra]. unfold outer_min in Hfit at 2. rewrite Ic in Hfit. rewrite E1. lra. }
+      { assert (Em : outer_min c0 == sugar c0 + m_min c0) by (unfold outer_min; rewrite Ic; reflexivity).
+        apply outer_of_set_outer_le; [|lra]. rewrite E1. lra. }
       lra.
     + destruct (fixed_outer c0 ic Ic) as [E0 E1]. rewrite E0. cbn [bind set_outer m_inner]. rewrite Ic, Ez.
       cbn [is_auto orb]. do 3 eexists. split; [reflexivity|].
       assert (outer_of (set_outer a0 (avail - outer_of c0)) <= avail - outer_of c0).
-      { apply outer_of_set_outer_le; [|lra]. unfold outer_min in Hfit at 1. rewrite Ia in Hfit. rewrite E1. lra. }
+      { assert (Em : outer_min a0 == sugar a0 + m_min a0) by (unfold outer_min; rewrite Ia; reflexivity).
+        apply outer_of_set_outer_le; [|lra]. rewrite E1. lra. }
       lra.
     + destruct (two_auto_fit avail a0 c0 Ca0 Cc0 Ia Ic Hfit) as [a' [c' [E [F [[i1 [I1 _]] [i2 [I2 _]]]]]]].
       rewrite E. cbn [bind fst snd]. rewrite I1, I2, Ez. cbn [is_auto orb].
       exists a', b0, c'. split; [reflexivity|exact F].
+Qed.
+
+(* positions along the side (make_margin_boxes): the centre box is centred whatever the sizes are, and when
+   the sizes fit the three rectangles do not overlap and stay inside the side *)
+Theorem center_box_centred avail a b c :
+  let '(pa, pb, pc) := side_positions avail a b c in
+  pb + outer_of b / 2 == avail / 2 /\ pa == 0 /\ pc + outer_of c == avail.
+Proof. unfold side_positions. repeat split; try field; reflexivity. Qed.
+
+Corollary side_boxes_do_not_overlap avail a b c gen_b :
+  content_ok a -> content_ok b -> content_ok c ->
+  (gen_b = false -> exists z, m_inner b = Some z /\ z == 0) ->
+  fits_possible avail a b c gen_b ->
+  exists a' b' c', compute_variable_dimension avail a b c gen_b = Ok (a', b', c') /\
+    let '(pa, pb, pc) := side_positions avail a' b' c' in
+    0 <= pa /\ pc + outer_of c' <= avail /\
+    (gen_b = true -> pa + outer_of a' <= pb /\ pb + outer_of b' <= pc) /\
+    (gen_b = false -> pa + outer_of a' <= pc).
+Proof.
+  intros Ca Cb Cc Hb Hfit.
+  destruct (three_boxes_fit_when_possible avail a b c gen_b Ca Cb Cc Hb Hfit) as [a' [b' [c' [E H]]]].
+  exists a', b', c'. split; [exact E|]. unfold side_positions. destruct gen_b.
+  - destruct H as [H1 H2]. split; [lra|]. split; [lra|]. split; [intros _; split; lra|intros; discriminate].
+  - split; [lra|]. split; [lra|]. split; [intros; discriminate|intros _; lra].
+Qed.
+
+(* when even the outer max-content sizes fit with room to spare, auto boxes get their max-content size: the
+   content is laid out without forced line breaks (this is the statement that the code before commit 81ed102
+   falsified: it subtracted padding/border/margins from the max-content size) *)
+Theorem preferred_widths_used_when_they_fit avail a c :
+  content_ok a -> content_ok c -> m_inner a = None -> m_inner c = None ->
+  0 <= outer_max a -> 0 <= outer_max c -> outer_max a + outer_max c < avail ->
+  exists a' c' ia ic, cvd_two_auto avail a c = Ok (a', c') /\
+    m_inner a' = Some ia /\ m_inner c' = Some ic /\ ia == m_max a /\ ic == m_max c.
+Proof.
+  unfold content_ok. intros Ca Cc Ia Ic Pa Pc Hroom.
+  assert (Ema : outer_max a == sugar a + m_max a) by (unfold outer_max; rewrite Ia; reflexivity).
+  assert (Emc : outer_max c == sugar c + m_max c) by (unfold outer_max; rewrite Ic; reflexivity).
+  unfold cvd_two_auto.
+  assert (B1 : qgt avail (outer_max a + outer_max c) = true).
+  { unfold qgt. apply negb_true_iff. destruct (Qle_bool avail (outer_max a + outer_max c)) eqn:E; [|reflexivity].
+    apply Qle_bool_iff in E. lra. }
+  rewrite B1.
+  destruct (share_bounds (avail - outer_max a - outer_max c) (outer_max a) (outer_max a + outer_max c))
+    as [sa [Ea [La _]]]; try lra.
+  destruct (share_bounds (avail - outer_max a - outer_max c) (outer_max c) (outer_max a + outer_max c))
+    as [sc [Ec [Lc _]]]; try lra.
+  rewrite Ea, Ec. cbn [bind]. do 4 eexists. split; [reflexivity|]. split; [reflexivity|]. split; [reflexivity|].
+  split.
+  - rewrite Q.min_r; [reflexivity|]. eapply Qle_trans; [|apply Q.le_max_r]. lra.
+  - rewrite Q.min_r; [reflexivity|]. eapply Qle_trans; [|apply Q.le_max_r]. lra.
+Qed.
+
+(* the hypotheses are satisfiable by non-trivial inputs; and the former behaviour is excluded on a witness *)
+Example three_boxes_example :
+  let a := mkB None (Some 0) None 20 30 70 in
+  let z := mkB (Some 0) (Some 0) (Some 0) 0 0 0 in
+  content_ok a /\ fits_possible 200 a z a false /\
+  cvd_judge (200, (a, z, a), false, Some ((0, 70, 0), (0, 0, 0), (0, 70, 0))) = 0%nat /\
+  cvd_judge (200, (a, z, a), false, Some ((0, 60, 0), (0, 0, 0), (0, 60, 0))) = 1%nat.
+Proof. vm_compute. repeat split; intros; discriminate. Qed.
+
+Example three_boxes_centre_example :
+  let a := mkB None None None 4 30 70 in let b := mkB None None None 10 20 50 in
+  let c := mkB (Some 2) None (Some 45) 0 0 0 in
+  fits_possible 300 a b c true /\
+  match compute_variable_dimension 300 a b c true with
+  | Ok (a', b', c') => Qle_bool (outer_of a' + outer_of b' + outer_of c') 300 = true
+  | _ => False
+  end.
+Proof. vm_compute. split; [intros; discriminate|reflexivity]. Qed.
+
+(* the naive premise "the three outer min-content sizes fit side by side" is NOT enough once the centre box has
+   to be centred: css-page-3 sizes B against twice the larger of A and C *)
+Theorem naive_premise_insufficient :
+  exists avail a b c,
+    content_ok a /\ content_ok b /\ content_ok c /\
+    outer_min a + outer_min b + outer_min c <= avail /\
+    match compute_variable_dimension avail a b c true with
+    | Ok (a', b', c') => avail < outer_of a' + outer_of b' + outer_of c'
+    | _ => False
+    end.
+Proof.
+  exists 100, (mkB (Some 0) (Some 0) None 0 60 80), (mkB (Some 0) (Some 0) None 0 30 40),
+         (mkB (Some 0) (Some 0) None 0 0 50).
+  vm_compute. repeat split; intros; discriminate.
 Qed.
